@@ -17,7 +17,7 @@ Extraction "../runner/model.ml"
   has_type wf_ty ser_ops enc ser_err de_slice slice_pop slice_take_n
   fix_bytes fix_value fix_ty fix_decode
   spec_enc spec_de spec_varint
-  decode_in_place_report crc
+  decode_in_place_report crc alg_okb
   to_slice to_vec to_allocvec to_extend to_io serialized_size
   to_slice_cobs to_vec_cobs to_allocvec_cobs
   to_slice_crc to_vec_crc to_allocvec_crc
